@@ -591,6 +591,7 @@ pub fn run(ctx: &Ctx) -> Outcome {
     let cfg = TapeCfg::new(ctx, 1500, 60_000, 700);
     out.shards = cfg.shards;
     out.absorb(tape_search(ctx, "main", &cfg, check, describe));
+    out.assumptions.push("known finding C13/step-in-over-mcr-clear: a case in which a call ends, not via MCR-off, right after the instruction that cleared the MCR is not compared further (counted in excluded_known); its witness is replayed on every run".into());
     out.essential = ["call:Run", "call:RunLimit", "call:RunWhileCount", "call:StepOver", "call:StepOut", "call:StepIn", "call:RunClearMcr", "pause:Halt", "pause:McrOff", "pause:Breakpoint", "pause:Tripwire", "pause:Error", "segmented-vs-unbroken", "instruction-counter-starts-near-u64-max", "run_with_limit-near-u64-max"].iter().map(|s| s.to_string()).collect();
     out
 }
